@@ -39,15 +39,15 @@ FIELD_FORMS = ["ann", "annval", "fdef", "ffac", "finitF", "finitFd", "fkwT", "fk
 NAMES = ["a", "b", "c", "d"]
 
 TIERS = {
-    # enum: groups of domains explored by one JVM each (domains, TLC workers); fixed: the same for the Fix = all runs;
-    # witness: "all" = one run over the unrestricted domain, "each" = one run per trigger (Allow = {t});
-    # ntarget: seeded random programs evaluated in target mode; procs: replay processes; nvariants: spellings per program
-    "quick": {"enum": [(["pair_q", "single3q"], 4), (["triple_q", "single2"], 4)], "fixed": [(["single2", "pair_w"], 2)],
-              "witness": "all", "ntarget": 3000, "procs": 6, "nvariants": 1},
-    "thorough": {"enum": [(["pair_t"], 6), (["triple_t"], 6), (["pair_m", "single4"], 6), (["pairhdr", "single3"], 6),
-                          (["pair_q", "single3q", "triple_q", "single2"], 4)],
-                 "fixed": [(["pair_q", "single3q", "triple_q", "single2", "pair_w"], 4), (["pair_m", "pairhdr"], 6)],
-                 "witness": "each", "ntarget": 60000, "procs": 8, "nvariants": 2},
+    # enum: groups of domains explored by one JVM each (domains, TLC workers, spellings per program); fixed: the same for
+    # the Fix = all runs; witness: "all" = one run over the unrestricted domain, "each" = one run per trigger (Allow = {t});
+    # ntarget: seeded random programs evaluated in target mode (tvariants spellings each); procs: replay processes
+    "quick": {"enum": [(["pair_q", "single3q"], 4, 1), (["triple_q", "single2"], 4, 1)], "fixed": [(["single2", "pair_w"], 2)],
+              "witness": "all", "ntarget": 3000, "tvariants": 1, "procs": 10, "jvms": 6},
+    "thorough": {"enum": [(["pair_t"], 5, 1), (["triple_t"], 5, 1), (["single3"], 5, 1), (["pair_m", "single4"], 5, 1), (["pairhdr"], 5, 1),
+                          (["pair_q", "single3q", "triple_q", "single2"], 4, 2)],
+                 "fixed": [(["pair_q", "single3q", "triple_q", "single2", "pair_w"], 4), (["pair_m", "pairhdr"], 5)],
+                 "witness": "each", "ntarget": 50000, "tvariants": 2, "procs": 10, "jvms": 3},
 }
 
 # JVM settings for the short TLC runs (fewer GC / JIT threads per JVM: several JVMs run side by side)
@@ -125,8 +125,9 @@ def run_targets(directory: str, chains: list, fix: list, workers: int = 4):
 
 # ---- aggregation of worker results ----------------------------------------------------------------
 class Agg:
-    def __init__(self, run: Run):
+    def __init__(self, run: Run, fix: list):
         self.run = run
+        self.fix = tuple(fix)
         self.drift: dict = {}
         self.seen_tags: dict = {t: 0 for t in TAGS}       # tagged, well-formed, real code differs from CPython
         self.ncase = 0
@@ -137,13 +138,12 @@ class Agg:
         if case["wf"] and any(c["hdr"]["dc"] and c["fields"] for c in case["chain"]):
             self.run.nontrivial_case(self.ncase)
 
-    def absorb(self, items: list, result: dict):
+    def absorb(self, result: dict):
         self.run.replayed(result["n"])
         self.run.evaluated(result["n"])
         for s in result["samples"]:
             self.run.sample(s, limit=4)
-        for idx, kind, *rest in result["events"]:
-            case, variant = items[idx]
+        for ident, kind, *rest in result["events"]:
             if kind == "die":
                 die("C18: " + rest[0])
             elif kind == "drift":
@@ -152,11 +152,11 @@ class Agg:
                 sig, what = rest
                 for t in sig["tags"]:
                     self.seen_tags[t] += 1
-                self.run.violation(sig, what, {"case": {"chain": case["chain"], "variant": variant}})
+                self.run.violation(sig, what, {"case": ident})
 
 
 def dispatch(pool, directory: str, agg: Agg, cases: list, nvariants: int, counter: list, chunk: int = 250):
-    """Cut the cases of one TLC run into jobs for the process pool; returns [(items, AsyncResult)]."""
+    """Cut the cases of one TLC run into jobs for the process pool; returns the AsyncResults."""
     pending = []
     for s in range(0, len(cases), chunk):
         items = []
@@ -168,7 +168,7 @@ def dispatch(pool, directory: str, agg: Agg, cases: list, nvariants: int, counte
         cid = counter[1] = counter[1] + 1
         jobdir = os.path.join(directory, f"j{cid}")
         os.makedirs(jobdir, exist_ok=True)
-        pending.append((items, pool.apply_async(R.replay_chunk, ((cid, jobdir, items),))))
+        pending.append(pool.apply_async(R.replay_chunk, ((cid, jobdir, items, agg.fix),)))
     return pending
 
 
@@ -189,28 +189,28 @@ def main(tier: str, replay: str | None = None):
             c = rec["case"]["case"]
             res = run_targets(directory, [c["chain"]], fix, workers=1)
             run.add_tlc(res)
-            agg = Agg(run)
+            agg = Agg(run, fix)
             items = [(res.cases[0], c["variant"])]
             agg.account(res.cases[0])
             jobdir = os.path.join(directory, "j0")
             os.makedirs(jobdir)
-            agg.absorb(items, R.replay_chunk((0, jobdir, items)))
+            agg.absorb(R.replay_chunk((0, jobdir, items, agg.fix)))
             for k, v in agg.drift.items():
                 run.note(f"{v} program(s): {k}")
             run.finish()
 
         ctx = multiprocessing.get_context("fork")
         pool = ctx.Pool(cfg["procs"])          # forked before any thread exists; workers inherit the imported working tree
-        agg = Agg(run)
+        agg = Agg(run, fix)
         counter = [SEED % R.NVARIANTS, 0]
         pending = []
         ALL = tla_set(TAGS)
         try:
-            with ThreadPoolExecutor(max_workers=6) as tp:
+            with ThreadPoolExecutor(max_workers=cfg["jvms"]) as tp:
                 futs = {}
-                for doms, w in cfg["enum"]:
+                for doms, w, nv in cfg["enum"]:
                     futs[tp.submit(tlc.run, "Dataclass", "Dataclass_check.cfg", workers=w, timeout=2400, env=JVM_BIG,
-                                   constants={"DOMS": tla_set(doms), "ALLOW": ALL, "FIX": tla_set(fix), "EMIT": "TRUE"})] = ("check", tuple(doms))
+                                   constants={"DOMS": tla_set(doms), "ALLOW": ALL, "FIX": tla_set(fix), "EMIT": "TRUE"})] = ("check", nv)
                 wruns = [(t, tla_set([t])) for t in TAGS if t not in fix] if cfg["witness"] == "each" else [("all", tla_set([t for t in TAGS if t not in fix]))]
                 for t, allow in wruns:
                     futs[tp.submit(tlc.run, "Dataclass", "Dataclass_witness.cfg", workers=1, timeout=600, dump_trace=True, env=JVM_SMALL,
@@ -228,7 +228,7 @@ def main(tier: str, replay: str | None = None):
                         seen.add(key)
                         chains.append(ch)
                 seen.clear()
-                futs[tp.submit(run_targets, directory, chains, fix, 4)] = ("target", "random")
+                futs[tp.submit(run_targets, directory, chains, fix, 4)] = ("target", cfg["tvariants"])
                 witnesses: dict = {}
                 isolated: dict = {}      # per trigger: smallest program carrying only that trigger on which Impl differs from CPython
                 fixed_ok = []
@@ -254,7 +254,7 @@ def main(tier: str, replay: str | None = None):
                             size = sum(1 + len(x["fields"]) for x in c["chain"])
                             if c["tags"][0] not in isolated or size < isolated[c["tags"][0]][0]:
                                 isolated[c["tags"][0]] = (size, c["chain"])
-                    pending += dispatch(pool, directory, agg, res.cases, cfg["nvariants"], counter)
+                    pending += dispatch(pool, directory, agg, res.cases, name, counter)
                     res.cases = []
             # the counterexamples of the witness runs, through TLC again (target mode) and onto the real code
             wtags = sorted(witnesses)
@@ -272,11 +272,11 @@ def main(tier: str, replay: str | None = None):
                     items = [(case, 0)]
                     agg.account(case)
                     before = sum(agg.seen_tags.values())
-                    agg.absorb(items, R.replay_chunk((f"w{n}", jobdir, items)))
+                    agg.absorb(R.replay_chunk((f"w{n}", jobdir, items, agg.fix)))
                     wnote[t] = {"chain": case["chain"], "tags": case["tags"], "real_code_differs_from_cpython": sum(agg.seen_tags.values()) > before}
                 run.extra["witnesses"] = wnote
-            for items, ar in pending:
-                agg.absorb(items, ar.get(timeout=2400))
+            for ar in pending:
+                agg.absorb(ar.get(timeout=3600))
         finally:
             pool.terminate()
         for t in TAGS:
@@ -288,7 +288,7 @@ def main(tier: str, replay: str | None = None):
         run.extra["violating_programs_per_trigger"] = agg.seen_tags
         run.exhaustive = True     # of the enumerated domains; the random target programs are a sample by construction
         # ---- vacuity
-        for doms, _w in cfg["enum"]:
+        for doms, _w, _nv in cfg["enum"]:
             for dom in doms:
                 if counts.get(dom, 0) < 1000:
                     die(f"C18: domain {dom} produced only {counts.get(dom, 0)} programs - vacuous")
